@@ -436,7 +436,7 @@ pub fn check_c08(seed: u64, i: usize) -> DefReport {
             // default regex priority by the documented rule where it is unambiguous
             if let Ok(text) = refa::inline_subpatterns(&refa::lit_regex_text(&p.lit), &subs) {
                 if let Ok(info) = prio::ast_info(&text) {
-                    if !info.fuzzy && !p.lit.bytes {
+                    if !info.fuzzy && !info.maybe_empty_class && !p.lit.bytes {
                         prio[leaf] = 2 * info.units;
                     } else if p.lit.bytes && !text.contains("(?") && info.units == info.units_valid_runs_as_chars {
                         prio[leaf] = 2 * info.units;
@@ -568,7 +568,14 @@ pub fn check_c09(seed: u64, i: usize) -> DefReport {
                     rep.violations.push(violation("C09", "odd-default-priority", &format!("leaf {leaf}: default priority {got} is odd"), &def, None, None));
                     continue;
                 }
-                if !fuzzy {
+                if !fuzzy && info.maybe_empty_class {
+                    // a set-operation class may be empty: the documented (structural) rule counts it as one class;
+                    // where it is not empty the shortest match gives the same number. Either reading is accepted,
+                    // neither is a violation (the semantic minimum alone would be stricter than the statement).
+                    if got != 2 * info.units && sem_chars.map(|sc| 2 * sc) != Some(got) {
+                        rep.violations.push(violation("C09", "regex-priority-structural", &format!("leaf {leaf}: pattern {text:?} has default priority {got}, the documented rule gives 2 x {} (AST recursion; shortest match {sem_chars:?} characters)", info.units), &def, None, None));
+                    }
+                } else if !fuzzy {
                     if got != 2 * info.units {
                         rep.violations.push(violation("C09", "regex-priority-structural", &format!("leaf {leaf}: pattern {text:?} has default priority {got}, the documented rule gives 2 x {} (AST recursion)", info.units), &def, None, None));
                     }
@@ -587,7 +594,10 @@ pub fn check_c09(seed: u64, i: usize) -> DefReport {
                         rep.violations.push(violation("C09", "regex-priority-bytes", &format!("leaf {leaf}: byte pattern {text:?} has default priority {got}; the rule gives 2 x {} (bytes) or 2 x {} (valid UTF-8 runs as characters)", info.units, info.units_valid_runs_as_chars), &def, None, None));
                     }
                 } else if let (Some(sc), Some(sb)) = (sem_chars, sem_bytes) {
-                    if !info.has_assertion && !(2 * sc <= got && got <= 2 * sb.max(info.units)) {
+                    // a possibly empty set-operation class counts as one class structurally although no match traverses
+                    // it: there the lower bound is the structural count, not the shortest match
+                    let lo = if info.maybe_empty_class { sc.min(info.units).min(info.units_valid_runs_as_chars) } else { sc };
+                    if !info.has_assertion && !(2 * lo <= got && got <= 2 * sb.max(info.units)) {
                         rep.violations.push(violation("C09", "regex-priority-range", &format!("leaf {leaf}: pattern {text:?} has default priority {got}, outside 2 x [{sc} chars, {sb} bytes]"), &def, None, None));
                     }
                 }
